@@ -191,7 +191,12 @@ impl<Input, Yield> Yielder<Input, Yield> {
         assert!(unsafe { !BODY_MODE_ACTIVE }, "corosensei model: suspend inside a body-mode coroutine");
         let prev = self.slot.replace(Some(val));
         assert!(prev.is_none(), "corosensei model: two suspends in one step");
-        unsafe { core::mem::zeroed() }
+        if core::mem::size_of::<Input>() == 0 {
+            // (mem::zeroed::<()>() is a zero-length memset at a dangling address, which CBMC's memset check rejects)
+            unsafe { core::ptr::read(core::ptr::NonNull::<Input>::dangling().as_ptr()) }
+        } else {
+            unsafe { core::mem::zeroed() }
+        }
     }
     pub fn on_parent_stack<F: FnOnce() -> R, R>(&self, f: F) -> R {
         f()
